@@ -33,7 +33,20 @@ func (f *frame) makeMap(x *ssa.MakeMap) {
 func (f *frame) mapLen(m Term, mt *types.Map) Term {
 	_, _, nn, _, _, ns, _, _ := f.mapHeaps(mt)
 	n := mkSelect(f.st.get(nn, ns), m, SBV64)
+	if f.vc.binderDepth == 0 {
+		f.vc.assume(mkAnd(sle(i64(0), n), sle(n, bvLit(64, 1<<40)))) // cardinality of a map
+	}
 	return mkIte(mkEq(m, i64(0)), i64(0), n)
+}
+
+// presentImpliesNonEmpty: instance of "the length is the cardinality of the domain".
+func (f *frame) presentImpliesNonEmpty(m, present Term, mt *types.Map) {
+	if f.vc.binderDepth > 0 {
+		return
+	}
+	_, _, nn, _, _, ns, _, _ := f.mapHeaps(mt)
+	n := mkSelect(f.st.get(nn, ns), m, SBV64)
+	f.vc.assume(mkAnd(sle(i64(0), n), mkImplies(present, sle(i64(1), n))))
 }
 
 func (f *frame) lookup(x *ssa.Lookup) {
@@ -53,6 +66,7 @@ func (f *frame) lookup(x *ssa.Lookup) {
 	dom := mkSelect(f.st.get(dn, ds), m, arraySort(ks, SBool))
 	in := mkAnd(mkNot(mkEq(m, i64(0))), mkSelect(dom, k, SBool))
 	inN := vc.define(f.name(x)+"$ok", in)
+	f.presentImpliesNonEmpty(m, inN, mt)
 	v := mkSelect(mkSelect(f.st.get(vn, vs), m, arraySort(ks, es)), k, es)
 	r := vc.define(f.name(x)+"$v", mkIte(inN, v, tt.zero(mt.Elem())))
 	if hasRefs(mt.Elem()) {
@@ -88,7 +102,8 @@ func (f *frame) mapDelete(m, k Term, mt *types.Map) {
 	D := f.st.get(dn, ds)
 	N := f.st.get(nn, ns)
 	dom := mkSelect(D, m, arraySort(ks, SBool))
-	was := mkAnd(mkNot(mkEq(m, i64(0))), mkSelect(dom, k, SBool))
+	was := f.vc.define(f.prefix+"del$was", mkAnd(mkNot(mkEq(m, i64(0))), mkSelect(dom, k, SBool)))
+	f.presentImpliesNonEmpty(m, was, mt)
 	f.st.set(dn, f.vc.define(dn, mkIte(mkEq(m, i64(0)), D, mkStore(D, m, mkStore(dom, k, tFalse)))))
 	n := mkSelect(N, m, SBV64)
 	f.st.set(nn, f.vc.define(nn, mkIte(was, mkStore(N, m, bvSub(n, i64(1))), N)))
@@ -118,6 +133,7 @@ func (f *frame) next(x *ssa.Next) {
 	k = vc.declareFresh(f.name(x)+"$k", ks)
 	dom := mkSelect(f.st.get(dn, ds), m, arraySort(ks, SBool))
 	vc.assume(mkImplies(ok, mkAnd(mkNot(mkEq(m, i64(0))), mkSelect(dom, k, SBool))))
+	f.presentImpliesNonEmpty(m, ok, mt)
 	if hasRefs(mt.Key()) {
 		vc.assume(tt.typeInv(k, mt.Key(), f.st.get("A$"+dn, SBV64)))
 	}
